@@ -50,6 +50,8 @@ type input struct {
 	CancelRun bool   `json:"cancel_run,omitempty"`
 	Threads   int    `json:"threads"`
 	Scenario  string `json:"scenario,omitempty"`
+	Trials    int    `json:"trials,omitempty"` // scenario spin: racing submit/close trials (stops at the first lost task)
+	Per       int    `json:"per,omitempty"`    // scenario spin: Submit calls per producer and trial
 	Ops       []op   `json:"ops"`
 }
 
@@ -487,6 +489,90 @@ func scenarioGate(in input) *recorder {
 	return r
 }
 
+// spin: every producer hammers Submit (no pauses, trivial handlers, yields on ErrFull, stops on ErrClosed or
+// after Per calls) while Close is called a few microseconds after the start — producers are in the middle of their
+// admission sections when Close publishes its flags. Repeated Trials times on fresh queues; the history of the first
+// trial that lost an admitted task (else of the last trial) is reported.
+func scenarioSpin(in input) *recorder {
+	var r *recorder
+	trials, per := in.Trials, in.Per
+	if trials <= 0 {
+		trials = 1
+	}
+	if per <= 0 {
+		per = 20
+	}
+	for trial := 0; trial < trials; trial++ {
+		r = &recorder{}
+		q := build(in, r)
+		var wg sync.WaitGroup
+		start := make(chan struct{})
+		for t := 0; t < in.Threads; t++ {
+			wg.Add(1)
+			go func(t int) {
+				defer wg.Done()
+				<-start
+				for j := 0; j < per; j++ {
+					tk := task{id: uint64(t*per + j + 1), shard: shardOf(in, uint64(t+j))}
+					switch r.doSubmit(q, context.Background(), tk, false) {
+					case 1:
+						runtime.Gosched()
+					case 2:
+						return
+					}
+				}
+			}(t)
+		}
+		close(start)
+		spin((trial % 8) * 6)
+		for k := 0; k < trial%3; k++ {
+			runtime.Gosched()
+		}
+		r.doClose(q)
+		wg.Wait()
+		time.Sleep(200 * time.Microsecond)
+		if lostIn(r) {
+			break
+		}
+	}
+	return r
+}
+
+// wqpin: BoundedWorkerQueue — "Submit calls are already contending for the admission lock when Close starts".
+// The harness holds q.mu (export) the way a slow in-flight Submit would, parks real Submit calls and then a real
+// Close behind it, gives the idle workers time to act on whatever Close has published so far, and releases the lock.
+// Whatever order the waiters then get the lock in, every Submit that returns nil must be run before Close returns.
+func scenarioWqPin(in input) *recorder {
+	var r *recorder
+	for round := 0; round < 3; round++ {
+		r = &recorder{}
+		p, err := workqueue.NewBoundedWorkerQueue[task](workqueue.BoundedWorkerQueueConfig{Name: "c37", Workers: in.Workers, QueueSize: in.QSize}, r.single)
+		if err != nil {
+			panic(err)
+		}
+		q := workerQ{p}
+		r.doSubmit(q, context.Background(), task{id: 1}, false)
+		p.VerifHoldAdmission()
+		var wg sync.WaitGroup
+		for i := 0; i < in.Threads; i++ {
+			wg.Add(1)
+			go func(i int) { defer wg.Done(); r.doSubmit(q, context.Background(), task{id: uint64(i + 2)}, false) }(i)
+		}
+		time.Sleep(2 * time.Millisecond) // submitters are parked on q.mu
+		closed := make(chan struct{})
+		go func() { r.doClose(q); close(closed) }()
+		time.Sleep(5 * time.Millisecond) // Close is parked behind them; workers act on what it has published
+		p.VerifReleaseAdmission()
+		wg.Wait()
+		<-closed
+		time.Sleep(200 * time.Microsecond)
+		if lostIn(r) {
+			break
+		}
+	}
+	return r
+}
+
 // k2: ShardedMailbox — the drain has seen its queue empty and is parked in its deferred
 // observation; an item is admitted (scheduled is still true, so no new drain is scheduled),
 // Close starts, finishShardDrain sees closed and does not reschedule.
@@ -604,6 +690,11 @@ func run(in input) vh.Result {
 	case "gate":
 		in.Kind, in.CancelAcc, in.CancelRun = "batch", false, false
 		r = scenarioGate(in)
+	case "spin":
+		r = scenarioSpin(in)
+	case "wqpin":
+		in.Kind = "worker"
+		r = scenarioWqPin(in)
 	case "k2":
 		in.Kind, in.Shards, in.Workers = "mailbox", 1, 1
 		r = scenarioK2(in)
@@ -692,7 +783,9 @@ func run(in input) vh.Result {
 	class := fmt.Sprintf("%s%s,full=%v,closed=%v,batched=%v,cancelled=%v,closerace=%v,lost=%v", in.Kind,
 		map[bool]string{true: "+ca", false: ""}[in.CancelAcc && in.Kind == "batch"]+map[bool]string{true: "+cr", false: ""}[in.CancelRun && in.Kind == "batch"],
 		nFull > 0, nClosed > 0, maxPos > 0, len(r.cans) > 0, closeRace, lost > 0)
-	if in.Scenario != "" {
+	if in.Scenario == "spin" {
+		class = "spin-" + class
+	} else if in.Scenario != "" {
 		class = "scenario-" + in.Scenario + fmt.Sprintf(",lost=%v", lost > 0)
 	}
 	obs := map[string]any{"subs": len(r.subs), "ok": nOk, "full": nFull, "closed": nClosed, "ctx": nCtx, "runs": len(r.runs),
@@ -726,6 +819,22 @@ func gen(r *rand.Rand, tier string, i int) input {
 		in.Shards = vh.Pick(r, 1, 2, 3, 5)
 		in.Batch = vh.Pick(r, 0, 1, 2, 4, 16)
 		in.WaitUs = vh.Pick(r, 0, 0, 20, 200)
+	}
+	if r.IntN(10) == 0 {
+		// racing submit/close trials: producers spin on Submit while Close is called
+		in.Scenario = "spin"
+		in.Kind = vh.Pick(r, "worker", "worker", "worker", "worker", "batch", "batch", "pool", "mailbox")
+		in.CancelAcc, in.CancelRun = false, false
+		in.Workers = vh.Pick(r, 1, 2, 3)
+		in.QSize = vh.Pick(r, 1, 2, 4, 16)
+		in.Threads = 4 + r.IntN(5)
+		in.Per = 8 + r.IntN(25)
+		in.Trials = 40
+		if tier == "thorough" {
+			in.Trials = 120
+		}
+		in.Ops = []op{}
+		return in
 	}
 	n := 10 + r.IntN(70)
 	if tier == "thorough" && r.IntN(4) == 0 {
